@@ -509,4 +509,34 @@ def FM.all (m : FM) : List Nat := m.items
 def FM.filterChecked (firstBound : Bool) (m : FM) (q : PF) : Option (List (Option Nat)) :=
   (m.trie.filter firstBound q).map (fun ids => ids.map (fun id => m.items[id]?))
 
+/-- `FilterMap(trie, items)` with the id-range test of fixes/C20-4 after the size test:
+    `for (id : ids_.filter(Factors{})) if (id >= items_.size()) throw` -/
+def FM.ofTrieChecked (firstBound : Bool) (t : T) (items : List Nat) : Option (Option FM) :=
+  (t.size firstBound).bind (fun n =>
+    if n != items.length then some none else
+      (t.getAllIds firstBound).map (fun ids => if ids.all (fun id => decide (id < items.length)) then some ⟨t, items⟩ else none))
+def FMF.ofTrieChecked (t : FT) (items : List Nat) : Option FMF :=
+  if t.size != items.length then none else
+  if (t.filter []).all (fun id => decide (id < items.length)) then some ⟨t, items⟩ else none
+
+/-! ### the library's own vocabulary for "compatible" (src/Factored/Utils/Core.cpp), used by the callers of the indexes -/
+
+/-- `match(lhsK, lhs, rhsK, rhs)`: two cursors over the ascending key lists (`i` on the longer list, `j` on the shorter one);
+    `while (j < smaller.size() && i < bigger.size())`: `bigger[i] < smaller[j]` → `++i`; `>` → `++j`; equal keys: values differ → false, else both -/
+def matchWalk : Nat → PF → PF → Bool
+  | 0, _, _ => true
+  | _ + 1, [], _ => true
+  | _ + 1, _, [] => true
+  | f + 1, (bk, bv) :: b, (sk, sv) :: s =>
+    if bk < sk then matchWalk f b ((sk, sv) :: s)
+    else if bk > sk then matchWalk f ((bk, bv) :: b) s
+    else if bv != sv then false else matchWalk f b s
+
+/-- `match(const PartialFactors & lhs, const PartialFactors & rhs)` (the shorter key list becomes `smaller`) -/
+def matchPF (l r : PF) : Bool :=
+  if l.length > r.length then matchWalk (l.length + r.length) l r else matchWalk (l.length + r.length) r l
+
+/-- `match(const Factors & lhs, const PartialFactors & rhs)`: `lhs[k] == v` for every pair of `rhs` -/
+def matchF (f : List Nat) (pf : PF) : Bool := pf.all (fun kv => f.getD kv.1 0 == kv.2)
+
 end AITB.Trie
